@@ -43,14 +43,15 @@ template <class D> bool near_range_end(i128 count) {
 	const i128 ticksPerDay = static_cast<i128>(86400) * D::period::den / D::period::num;
 	return count - lo < (ticksPerDay > 0 ? ticksPerDay : 1);
 }
-// Recorded finding KF-33 (narrowed after fix d6c75fd, which repaired the 32-byte print buffer): time_point<days, int64> within 719468 days
-// of max(): the printer computes `days + 719468` in int64 (signed overflow, the year comes out with the wrong sign).
+// Recorded finding KF-33 (what is left of it after the fixes d6c75fd = KF-63 and f35247f = KF-64, which repaired the printer): a day-precision
+// 64-bit time point in the last 400-year era of the range prints correctly, but the parser rejects its text (`era > INT64_MAX / 146097`,
+// although era * 146097 + day-of-era - 719468 fits): the mirror image of KF-27 at the other end of the range.
 template <class D> bool beyond_printable(i128 count) {
 #ifdef NO_EXCL
 	return false;
 #endif
 	if (sizeof(typename D::rep) < 8 || D::period::num != 86400) return false;
-	return count > static_cast<i128>(INT64_MAX) - 719468;
+	return count + 719468 >= (static_cast<i128>(INT64_MAX) / 146097 + 1) * 146097;
 }
 // Coarse 64-bit time points (minutes, hours, days) whose seconds since the epoch do not fit int64 (years beyond +-292 billion) print and
 // parse like any other, but are outside what the MsgPack timestamp can carry: saving them must be reported as Overflow.
@@ -170,7 +171,7 @@ template <class D> void prop_tp(vf::Ctx& c) {
 	rejected_conversion_before(c);
 	i128 count = gen_count<D>(c.src, true);
 	c.describe(vf::cat("tp ", dname<D>(), " ", refcal::i128s(count)));
-	if (near_range_end<D>(count) || beyond_printable<D>(count)) { c.label(near_range_end<D>(count) ? "excluded:KF-27-range-end" : "excluded:KF-33-last-1970-years-of-days"); c.discard("KF-33"); }
+	if (near_range_end<D>(count) || beyond_printable<D>(count)) { c.label(near_range_end<D>(count) ? "excluded:KF-27-range-end" : "excluded:KF-33-last-era-of-days"); c.discard("KF-33"); }
 	const i128 secs = refcal::fdiv(count * D::period::num, D::period::den);
 	c.nontrivial = secs < 0 || secs >= 253402300800LL;
 	std::string d; if (const char* e = check_tp<D>(count, d)) c.fail(e, d);
@@ -240,7 +241,7 @@ VF_PROPERTY(raw_time, 1, "time_t through CRawTime and CTimeRef: text vs referenc
 {
 	i128 count = gen_count<dur_s<int64_t>>(c.src, true);
 	c.describe(vf::cat("time_t ", refcal::i128s(count)));
-	if (near_range_end<dur_s<int64_t>>(count) || beyond_printable<dur_s<int64_t>>(count)) { c.label("excluded:KF-33-range-end"); c.discard("KF-33"); }
+	if (near_range_end<dur_s<int64_t>>(count) || beyond_printable<dur_s<int64_t>>(count)) { c.label("excluded:KF-27-range-end"); c.discard("KF-33"); }
 	c.nontrivial = count < 0;
 	const time_t t = static_cast<time_t>(count);
 	const std::string want = refcal::print_instant(count, 1, 1, 0);
@@ -279,24 +280,26 @@ template <class D> void kf27_case(vf::Ctx& c) {
 	try { TP back = Convert::To<TP>(text); if (back != tp) c.fail("first day of the range parses back to a different instant", text); }
 	catch (const std::out_of_range&) { c.fail("KF-27: text of an instant in the first day of the type's range cannot be parsed back (out_of_range)", vf::cat(dname<D>(), " ", text)); }
 }
+}
+namespace {
 template <class D> void kf33_case(vf::Ctx& c) {
 	using R = typename D::rep; using TP = time_point<system_clock, D>;
-	// a day-precision instant within 719468 days of max(): `days + 719468` overflows in the printer
-	const i128 count = static_cast<i128>(std::numeric_limits<R>::max()) - static_cast<i128>(c.src.draw(719468));
+	const i128 first = (static_cast<i128>(INT64_MAX) / 146097 + 1) * 146097 - 719468;   // first day of the last era
+	const i128 count = first + static_cast<i128>(c.src.draw(static_cast<uint64_t>(static_cast<i128>(std::numeric_limits<R>::max()) - first + 1)));
 	c.describe(vf::cat("kf33 ", dname<D>(), " ", refcal::i128s(count))); c.nontrivial = true;
 	TP tp{ D(static_cast<R>(count)) };
 	const std::string want = refcal::print_instant(count, D::period::num, D::period::den, 0);
-	std::string text;
-	try { text = Convert::ToString(tp); }
-	catch (const std::runtime_error&) { c.fail("KF-33: printing a day-precision 64-bit time point within 719468 days of max() fails or is wrong", vf::cat(dname<D>(), " ", refcal::i128s(count), " threw, want ", want)); }
-	if (text != want) c.fail("KF-33: printing a day-precision 64-bit time point within 719468 days of max() fails or is wrong", vf::cat(dname<D>(), " ", refcal::i128s(count), " text=", text, " want ", want));
+	const std::string text = Convert::ToString(tp);
+	if (text != want) c.fail("last era of the day-precision range is printed wrongly", vf::cat(text, " want ", want));
+	try { TP back = Convert::To<TP>(text); if (back != tp) c.fail("last era of the day-precision range parses back to a different instant", text); }
+	catch (const std::out_of_range&) { c.fail("KF-33: text of a day-precision instant in the last era of the 64-bit range cannot be parsed back (out_of_range)", vf::cat(dname<D>(), " ", text)); }
 }
 }
+VF_PROPERTY(kf33_days, 1, "witness of KF-33") { kf33_case<dur_d<int64_t>>(c); }
 VF_PROPERTY(kf27_s, 1, "witness of KF-27") { kf27_case<dur_s<int64_t>>(c); }
 VF_PROPERTY(kf27_ms, 1, "witness of KF-27") { kf27_case<dur_ms<int64_t>>(c); }
 VF_PROPERTY(kf27_ns, 1, "witness of KF-27") { kf27_case<dur_ns<int64_t>>(c); }
 VF_PROPERTY(kf27_s32, 1, "witness of KF-27") { kf27_case<dur_s<int32_t>>(c); }
-VF_PROPERTY(kf33_days, 1, "witness of KF-33") { kf33_case<dur_d<int64_t>>(c); }
 
 int main(int argc, char** argv) {
 	if (const char* e = refcal::selftest()) { fprintf(stderr, "ORACLE SELF-TEST FAILED: ref_calendar %s\n", e); return 2; }
